@@ -186,3 +186,93 @@ Proof. exact ex_large_pool_merge_refuted. Qed.
 Print Assumptions c20_par_indexed_update_indices_establishes_pool_shape.
 Print Assumptions c20_par_indexed_small_pool_nomod_refuted.
 Print Assumptions c20_par_indexed_large_pool_merge_refuted.
+
+(* ================= the key mutex of the parallel LATTICE head update is a requirement of the RUN pool (Engine/ParLatLocks*.v) =================
+   The mutex stripes that serialise the first insertion of a lattice key are a field of the program value, created at CONSTRUCTION; the
+   workers that need them belong to the pool the value is RUN in.  Model: Engine/ParLat.v with steps (4) lock / (7) unlock following a
+   stripe assignment [lockof] (None = no lock is taken).  Tie: gen/c20_contention.py (big lattice programs constructed under one pool and
+   run under another, one row per key with the least upper bound). *)
+From AV Require Engine.ParLat.
+From AV Require Engine.ParLatProofs.
+From AV Require Engine.ParLatLocks.
+From AV Require Engine.ParLatLocksProofs.
+From AV Require LatEngine.LatSem.
+Section LatticeKeyMutex.
+Context {K V : Type}.
+Variable keqb : K -> K -> bool.
+Hypothesis keqb_spec : forall a b : K, keqb a b = true <-> a = b.
+Variable le : V -> V -> Prop.
+Variable jm : V -> V -> V * bool.
+Hypothesis laws : LatSem.lat_laws le jm.
+Variable kfirst : bool.
+Variables dl tt : K -> option nat.
+Variable R0 : list (K * V).
+Variable nk0 : list (K * nat).
+Variable ot0 : list nat.
+Variable ch0 : bool.
+Variable work : list (list (K * V)).               (* one list of contributions per worker of the RUN pool: any number of workers *)
+Hypothesis init : ParLatProofs.init_ok keqb le dl tt R0 nk0 ot0 ch0 work.
+Notation lrun lockof sched := (ParLatLocks.lrun_sched keqb jm lockof kfirst true dl tt (ParLat.par_init R0 nk0 ot0 ch0 work) sched).
+
+(* a value with ANY number n > 0 of stripes (whatever pool was current when it was constructed), any hash, run by any number of workers
+   under every schedule: one row per key in every reachable state, and after a finishing schedule the serial values *)
+Theorem c20_lattice_key_mutex_any_stripes_one_row_per_key : forall (hash : K -> nat) (stripes : nat), stripes <> 0%nat ->
+  forall sched, NoDup (map fst (ParLat.lrows (lrun (ParLatLocks.stripe_lock hash stripes) sched))).
+Proof. exact (ParLatLocksProofs.parlat_striped_one_row_per_key keqb keqb_spec le jm laws kfirst true dl tt R0 nk0 ot0 ch0 work init). Qed.
+
+Theorem c20_lattice_key_mutex_any_stripes_values : forall (hash : K -> nat) (stripes : nat), stripes <> 0%nat ->
+  forall sched, ParLat.finished (lrun (ParLatLocks.stripe_lock hash stripes) sched) = true ->
+  forall k, ParLat.valof keqb (ParLat.lrows (lrun (ParLatLocks.stripe_lock hash stripes) sched)) k
+            = ParLat.valof keqb (ParLat.ser_run keqb jm R0 (concat work)) k.
+Proof. exact (ParLatLocksProofs.parlat_striped_values keqb keqb_spec le jm laws kfirst true dl tt R0 nk0 ot0 ch0 work init). Qed.
+
+(* the code: shards_count() stripes - a process constant > 0; the pool current at construction is not consulted *)
+Theorem c20_lattice_key_mutex_code_policy : forall (hash : K -> nat) (n construction_pool : nat), n <> 0%nat ->
+  forall sched, NoDup (map fst (ParLat.lrows (lrun (ParLatLocks.stripe_lock hash (ParLatLocks.stripes_process_constant n construction_pool)) sched))).
+Proof. exact (ParLatLocksProofs.parlat_process_constant_policy keqb keqb_spec le jm laws kfirst true dl tt R0 nk0 ot0 ch0 work init). Qed.
+
+(* no lock at all is sound exactly when the RUN pool has one worker (the construction pool does not occur) *)
+Theorem c20_lattice_no_key_mutex_single_run_worker : length work = 1%nat -> forall sched,
+  NoDup (map fst (ParLat.lrows (lrun (@ParLatLocksProofs.nolock K) sched))) /\
+  (ParLat.finished (lrun (@ParLatLocksProofs.nolock K) sched) = true ->
+   forall k, ParLat.valof keqb (ParLat.lrows (lrun (@ParLatLocksProofs.nolock K) sched)) k
+             = ParLat.valof keqb (ParLat.ser_run keqb jm R0 (concat work)) k).
+Proof. exact (ParLatLocksProofs.parlat_no_lock_single_worker keqb keqb_spec le jm laws kfirst true dl tt R0 nk0 ot0 ch0 work init). Qed.
+End LatticeKeyMutex.
+
+(* ... and refuted with two workers: a value WITHOUT stripes (0 stripes = what "sized by the construction pool, none for a single thread"
+   gives a value constructed under a 1-thread pool), contributions (5, 1) and (5, 2) for the new key 5 on two workers of the run pool,
+   schedule race_sched (both pass the look-ups and the re-check before either inserts): finished with TWO rows of key 5; new's key index
+   points at the second, the first - the one a reader of the rows meets first - keeps the stale value 1; the serial value is 2 *)
+Theorem c20_lattice_no_key_mutex_two_run_workers_refuted : forall kfirst,
+  let s := ParLatLocksProofs.zlrun kfirst (ParLatLocks.stripe_lock ParLatLocksProofs.zhash 0) [(7, 0)%Z] [[(5, 1)%Z]; [(5, 2)%Z]] ParLatLocksProofs.race_sched in
+  ParLat.finished s = true /\ ParLat.lrows s = [(7, 0); (5, 1); (5, 2)]%Z /\ ~ NoDup (map fst (ParLat.lrows s)) /\
+  ParLat.klook Z.eqb 5%Z (ParLat.lnkey s) = Some 2%nat /\
+  ParLat.valof Z.eqb (ParLat.lrows s) 5%Z = Some 1%Z /\
+  ParLat.valof Z.eqb (ParLat.ser_run Z.eqb ParLatProofs.zjm [(7, 0)%Z] [(5, 1)%Z; (5, 2)%Z]) 5%Z = Some 2%Z.
+Proof. exact ParLatLocksProofs.parlat_no_lock_refuted. Qed.
+
+(* the sizing policy "by the pool current at construction": no stripes for 1 thread, next_power_of_two(4 a) > 0 for a >= 2; the value
+   constructed under a 1-thread pool and run by two workers is the refutation above *)
+Theorem c20_lattice_key_mutex_by_construction_pool_refuted :
+  ParLatLocks.stripes_by_construction_pool 1 = 0%nat /\ ParLatLocks.stripes_by_construction_pool 2 = 8%nat /\ ParLatLocks.stripes_by_construction_pool 8 = 32%nat /\
+  (forall a, (2 <= a)%nat -> ParLatLocks.stripes_by_construction_pool a <> 0%nat) /\
+  forall kfirst,
+    let s := ParLatLocksProofs.zlrun kfirst (ParLatLocks.stripe_lock ParLatLocksProofs.zhash (ParLatLocks.stripes_by_construction_pool 1)) [(7, 0)%Z] [[(5, 1)%Z]; [(5, 2)%Z]] ParLatLocksProofs.race_sched in
+    ParLat.finished s = true /\ ParLat.lrows s = [(7, 0); (5, 1); (5, 2)]%Z.
+Proof. exact ParLatLocksProofs.parlat_by_construction_pool_refuted. Qed.
+
+(* the same contributions and schedule (completed) on values with 1 and with 8 stripes: one row holding the maximum *)
+Example c20_example_key_mutex_same_schedule : forall kfirst,
+  let s1 := ParLatLocksProofs.zlrun kfirst (ParLatLocks.stripe_lock ParLatLocksProofs.zhash 1) [(7, 0)%Z] [[(5, 1)%Z]; [(5, 2)%Z]] (ParLatLocksProofs.race_sched ++ [1; 1; 1; 1])%nat in
+  let s8 := ParLatLocksProofs.zlrun kfirst (ParLatLocks.stripe_lock ParLatLocksProofs.zhash 8) [(7, 0)%Z] [[(5, 1)%Z]; [(5, 2)%Z]] (ParLatLocksProofs.race_sched ++ [1; 1; 1; 1])%nat in
+  ParLat.finished s1 = true /\ ParLat.lrows s1 = [(7, 0); (5, 2)]%Z /\ ParLat.finished s8 = true /\ ParLat.lrows s8 = [(7, 0); (5, 2)]%Z.
+Proof. exact ParLatLocksProofs.ex_striped_same_schedule. Qed.
+
+Print Assumptions c20_lattice_key_mutex_any_stripes_one_row_per_key.
+Print Assumptions c20_lattice_key_mutex_any_stripes_values.
+Print Assumptions c20_lattice_key_mutex_code_policy.
+Print Assumptions c20_lattice_no_key_mutex_single_run_worker.
+Print Assumptions c20_lattice_no_key_mutex_two_run_workers_refuted.
+Print Assumptions c20_lattice_key_mutex_by_construction_pool_refuted.
+Print Assumptions c20_example_key_mutex_same_schedule.
